@@ -30,6 +30,11 @@ CHECKS = {
             "Every vector of the file-flow family (which output type carries the file incl. projections through arrays/typed maps of structs, strings and untyped maps; split producer; sub-pipeline boundaries; mapped producer/consumer; late second consumer; stage/pipeline retain; returned by the top-level pipeline; pipestance below a symlinked directory with physically reported paths) x {call volatile, none, strict, false} x VDR {rolling, post, strict}: model jobs write real files and every consumer verifies each file named in its arguments at the moment it runs; at completion files named by top-level outputs and retains must be intact. Schedules: default, each job held/start-only, each VDR goroutine deferred 0/1/3 loop iterations.",
             "VDR goroutine bodies are treated as atomic w.r.t. the scheduler loop (deferred as a whole); stages follow Martian's contract for file outputs",
             "DESIGN.md 4/C04"),
+    "C13": ("exploration",
+            "exhaustive enumeration of top-level output signatures x leaf modes x mapping/wrapping, run on the real runtime and post-processor, type-directed before/after walk of the outputs record",
+            "909 programs in the quick family (all combinations in thorough): top-level pipelines returning each of 12 producer outputs alone (user file type, file, arrays and typed maps of files, struct / struct array / typed map of structs holding a file, 2-dimensional file array, string and untyped map holding a path, directory, int) and three combinations x collection sizes {2,0,1,11} x leaf modes {written, null, named-but-missing, relative symlink, outside the pipestance} x explicit out names x mapped producer x mapped top-level call x pass-through sub-pipeline, plus 5 kinds of output-name collision (explicit vs default name in both declaration orders, two explicit names, inside a struct, file vs directory). Each program runs to completion on the real runtime with real files, then VDRKill + PostProcess as mrp does. Oracle: record is valid JSON of the same shape, non-file values unchanged, every non-null file leaf recorded at an existing location under outs/ holding exactly its producer's bytes (files are self-describing), leaves naming different files at different locations, file-type extension kept; colliding names must be rejected at compile time or materialised apart.",
+            "two leaves naming the same source file may share one materialised location (unspecified); for symlinked outputs and outputs outside the pipestance any recorded location resolving to the producer's bytes is accepted; the human-readable summary printed to stdout is not checked",
+            "DESIGN.md 4/C13"),
     "C14": ("exploration",
             "same executions as C04; reclamation and accounting oracles against a harness-measured removal ledger",
             "On every completed run of the C04 exploration: no per-job tmp file and no chunk-level file of a splitting stage survives; no file written by a volatile stage (strict mode: any stage) survives unless named by a top-level output or retain; every path listed in any _vdrkill is gone; the pipestance-level report is bounded below by the regular files/bytes VDR actually removed (ledger measured by the rewritten os.RemoveAll hook immediately before each removal) and above by files+directories, and lists every removed files/ path; no file-system effect leaves the pipestance directory.",
